@@ -68,6 +68,10 @@ def hostile_selectors(rng, model: sites.SiteModel, full: bool, n: int, outside_a
                 for payload in (b"x;cat " + secret, b"$(cat " + secret + b")", b"`cat " + secret + b"`", b"x&&cat " + secret,
                                 b"x|cat " + secret, b"x\tcat<" + secret, b"-f " + secret, b"x;" + outside_abs + b"/evil.pyg"):
                     out.append((o.selector + sep + payload, False, "shell-syntax-in-argument"))
+                # ... and arguments that climb (a script that takes its argument for a file name would follow them)
+                for payload in (b"../../outside-secret.txt", b"../outside-secret.txt", b"x/../../../outside-secret.txt", b"..", b"../../SIBLING/secret.txt",
+                                b"pages/../../../outside-secret.txt", b"..\\..\\outside-secret.txt", b".//..//outside-secret.txt"):
+                    out.append((o.selector + sep + payload, False, "climbing-virtual-argument"))
     outside_targets = [b"etc/passwd", b"outside-secret.txt", b"SIBLING/secret.txt", b"evil.pyg", b"outside.mbox"]
     for _ in range(n):
         o = rng.choice(objs)
@@ -195,6 +199,11 @@ def extend_model(model: sites.SiteModel, base: str, sc: Scratch) -> None:
     model.tree.file("nest.zip", outer.to_zip(date_time=(2031, 1, 1, 0, 0, 0)))
     model.add(b"/nest.zip/D/inner.zip", "menu", needs_full=True, tags=["zip", "nested"])
     model.add(b"/nest.zip/D/inner.zip/sub/deep.txt", "doc", None, needs_full=True, tags=["zip", "nested"])
+    # a script that shows the page its argument names (relative to its own directory)
+    model.tree.file("viewer.sh", b'#!/bin/sh\n# shell built-ins only: nothing but the interpreter is executed\n'
+                    b'[ -f "${0%/*}/pages/$1" ] || exit 0\nwhile IFS= read -r line; do echo "$line"; done < "${0%/*}/pages/$1"\n', mode=0o755)
+    model.tree.file("pages/hello.txt", "a page\n")
+    model.add(b"/viewer.sh", "doc", None, needs_full=True, tags=["exec", "viewer"])
     # an executable the kernel cannot run by itself (no #! line)
     model.tree.file("noshebang", "echo hello $1\n", mode=0o755)
     model.add(b"/noshebang", "doc", None, needs_full=True, tags=["exec", "noshebang"])
